@@ -58,6 +58,10 @@ class Sched:
         self.tasks[name] = threading.Thread(target=body, name=name, daemon=True)
         self.order.append(name)
 
+    def cancel_after(self, k):
+        """arms a cancellation k traced library lines from now (called by a task right before the call it targets)"""
+        self.cancel_at.add(self.lines + k)
+
     def _pick(self):
         alive = [n for n in self.order if n not in self.done]
         self.current = alive[self.st.draw(len(alive))] if alive else None
